@@ -2,6 +2,13 @@ import PetgraphModel.Model.VisitTable
 import PetgraphModel.Spec.VisitSpec
 import PetgraphModel.Proofs.VisitTable
 import PetgraphModel.Extracted.AdjWidth
+import PetgraphModel.Model.C06Views
+import PetgraphModel.Proofs.C06W2GraphMap
+import PetgraphModel.Proofs.C06W2Csr
+import PetgraphModel.Proofs.C06W2List
+import PetgraphModel.Proofs.C06W2Matrix
+import PetgraphModel.Proofs.C06W2Graph
+import PetgraphModel.Theorems.C04
 /-
 C06 — every graph type and adaptor shows one consistent graph through the `visit` traits.
 
@@ -18,9 +25,9 @@ What is proved here, for ALL tables (no bound on size, any stacking depth):
   * the code as it stands (`Cfg.asIs`) is refuted on witnesses for D23 and D24, and the recorded dumps of
     `MatrixGraph<Directed>` (D6) and `Csr<Undirected>` (D7) are refuted / repaired on witnesses.
 
-Not provable in this vertical: `TableConsistent` of the six storage types' own tables in every reachable state
-(DESIGN `C06_consistent_<Type>`) needs the storage models of C01–C05; here those tables are judged on every
-run by `checkTable`, whose soundness is `C06_checkTable_sound`.
+Wave 2 (section "wave 2" below): `C06_consistent_<Type>` — `TableConsistent` of the table COMPUTED FROM THE STORAGE
+MODEL (Model/C06Views.lean) in every state satisfying the type's invariant, hence after every history.  The dumped
+tables of the real crate are in addition judged on every run by `checkTable` (soundness: `C06_checkTable_sound`).
 Only property theorems live here; lemmas are in Proofs/VisitTable.lean.
 -/
 namespace PetgraphModel.C06T
@@ -57,7 +64,7 @@ theorem C06_edgeFiltered (qs : List Nat) (t : Table) (q : ERef → Bool)
     (hq : t.directed = false → ∀ e, q e.swap = q e) (h : TableConsistent qs t) :
     TableConsistent qs (edgeFiltered q t) ∧ abs (edgeFiltered q t) = (abs t).restrict q := by
   refine ⟨edgeFiltered_consistent q hq h, ?_⟩
-  simp only [edgeFiltered, abs, AGraph.restrict]; cases t.erefs <;> simp
+  simp only [edgeFiltered, Visit.abs, AGraph.restrict]; cases t.erefs <;> simp
 
 /-- `Frozen` and the `&G` delegation present the identical table. -/
 theorem C06_identity (cfg : Cfg) (t : Table) : applyOp cfg .frozen t = t ∧ applyOp cfg .ref t = t := ⟨rfl, rfl⟩
@@ -191,6 +198,207 @@ theorem C06_D7_counterexample :
   refine ⟨fun h => ?_, by decide, C06_checkTable_sound _ _ (by decide)⟩
   have := C06_checkTable_complete _ _ h
   revert this; decide
+
+/-! ### wave 2: `C06_consistent_<Type>` — the table COMPUTED FROM THE STORAGE MODEL is consistent in every
+reachable state
+
+`<type>Table` (Model/C06Views.lean) fills every field of the table from the storage model's own query functions the
+way the Rust trait impls do (and the way `harness/src/c06.rs` dumps them); the theorems below say that this table
+satisfies every clause of the property in every state that satisfies the type's representation invariant, hence
+after every history. -/
+
+/-- `GraphMap` (directed and undirected): in every state satisfying the C03 invariant, with node values below 100
+(the harness's pair edge-id code `a * 100 + b` names an edge uniquely only there), all thirteen clauses hold for the
+table computed from the two `IndexMap`s: identifiers/references/count, the compact `NodeIndexable` numbering,
+`edge_references`/`edge_count`, `EdgeIndexable`, `neighbors`, `neighbors_directed`, `edges`, `edges_directed`
+(both directions) and `is_adjacent`. -/
+theorem C06_consistent_GraphMap (s : GM.State) (h : GMProofs.Inv s) (hb : GMBounded s) :
+    TableConsistent (GM.nodesOf s) (graphMapTable s) :=
+  graphMapTable_consistent s h hb
+
+/-- … hence after EVERY history of public calls on a fresh map (any length, any arguments below 100), and the
+run-time judge accepts that table. -/
+theorem C06_consistent_GraphMap_all_histories (directed : Bool) (ops : List GM.Op)
+    (hops : ∀ op ∈ ops, GMJudge.OpBounded 100 op) :
+    let s := (GM.run (GM.State.empty directed) ops).1
+    TableConsistent (GM.nodesOf s) (graphMapTable s) ∧ checkTable (GM.nodesOf s) (graphMapTable s) = true := by
+  intro s
+  have hc := C06_consistent_GraphMap s (GMProofs.run_spec _ ops (GMProofs.inv_empty directed)).1
+    (gmBounded_run directed ops hops)
+  exact ⟨hc, C06_checkTable_complete _ _ hc⟩
+
+/-- … and so is every adaptor stack over a reachable `GraphMap` (composition with `C06_stack`). -/
+theorem C06_GraphMap_stack (directed : Bool) (ops : List GM.Op) (hops : ∀ op ∈ ops, GMJudge.OpBounded 100 op)
+    (stack : List Op) (hok : StackOk (graphMapTable (GM.run (GM.State.empty directed) ops).1).directed stack)
+    (hfo : Op.frozenOwned ∉ stack) :
+    let s := (GM.run (GM.State.empty directed) ops).1
+    TableConsistent (GM.nodesOf s) (applyStack Cfg.ideal stack (graphMapTable s)) ∧
+      abs (applyStack Cfg.ideal stack (graphMapTable s)) = specStack stack (abs (graphMapTable s)) :=
+  C06_stack _ stack _ hok hfo (C06_consistent_GraphMap_all_histories directed ops hops).1
+
+/-- the `0` default for a missing looked-up weight in `GMView.eref` is never used: the per-node edge iterators
+find every weight (no `unreachable!()`), so `graphMapTable` is the table of a panic-free dump. -/
+theorem C06_GraphMap_table_total (s : GM.State) (h : GMProofs.Inv s) (a : Nat) (d : GM.Dir) :
+    (∀ e ∈ GM.edgesOf s a, e.2.2.isSome = true) ∧ (∀ e ∈ GM.edgesDirected s a d, e.2.2.isSome = true) :=
+  graphMapTable_no_default s h a d
+
+/-- non-vacuity: a history with reciprocal edges, a self-loop, `swap_remove` in both maps and a re-added edge
+satisfies the hypotheses, and its table is the non-trivial one the judge accepts. -/
+example : (∀ op ∈ ([.addEdge 1 2 7, .addEdge 2 1 8, .addEdge 1 1 9, .addEdge 0 1 3, .removeNode 0, .removeEdge 1 2,
+      .addEdge 1 2 5, .addNode 7] : List GM.Op), GMJudge.OpBounded 100 op) := by
+  intro op hop; simp only [List.mem_cons, List.not_mem_nil, or_false] at hop
+  rcases hop with rfl | rfl | rfl | rfl | rfl | rfl | rfl | rfl <;> simp [GMJudge.OpBounded]
+example :
+    (graphMapTable (GM.run (GM.State.empty false) [.addEdge 2 1 7, .addEdge 1 1 9, .addEdge 5 1 2, .removeNode 5, .addNode 0]).1).erefs
+      = some [⟨102, 1, 2, 7⟩, ⟨101, 1, 1, 9⟩] := by decide
+
+/-! #### `Csr` -/
+
+/-- the node count fits the index type (`Ix::new` does not wrap); kept by every history inside `C05T.Fits` -/
+abbrev CsrIxFits := CsrW2.IxFits
+/-- `edge_count()` of an undirected `Csr` counts every edge once (follows from the C05 refinement, `csr_edgeCountOk`) -/
+abbrev CsrEdgeCountOk := CsrW2.EdgeCountOk
+
+/-- `Csr<_, _, Directed, _>`: in every state satisfying the C05 invariant whose node count fits the index type,
+the table computed from `row`/`column`/`edges` as it stands is consistent (all clauses; the directed-only traits,
+`EdgeIndexable` are not implemented, their clauses are vacuous). -/
+theorem C06_consistent_Csr (s : CsrM.State) (h : C05T.Inv s) (hf : CsrIxFits s) (hd : s.directed = true) :
+    TableConsistent (CsrM.nodeIdentifiers s) (csrTable s) :=
+  csrTable_consistent s h hf hd
+
+/-- `Csr<_, _, Undirected, _>` behind the repair of the open finding D7 (`edge_references` lists each non-loop edge
+in both rows): with one reference per edge under its endpoint-pair id (`repairD7`), the table is consistent
+(at most 100 nodes: the pair code). The unrepaired table violates the property (`C06_D7_counterexample`). -/
+theorem C06_consistent_Csr_undirected_repairD7 (s : CsrM.State) (h : C05T.Inv s) (hf : CsrIxFits s)
+    (hd : s.directed = false) (h100 : s.nodeCount ≤ 100) (hcount : CsrEdgeCountOk s) :
+    TableConsistent (CsrM.nodeIdentifiers s) (repairD7 (csrTable s)) :=
+  csrTable_consistent_undirected s h hf hd h100 hcount
+
+/-- all histories, directed `Csr`, from `with_nodes(n)` (`new` = `with_nodes(0)`): consistent, and no trait call
+made for the table panics. -/
+theorem C06_consistent_Csr_all_histories (m c : Nat) (dbg : Bool) (n : Nat) (ops : List CsrM.Op)
+    (hfits : C05T.Fits m n ops) (h0 : m = 0 ∨ n ≤ m) :
+    let s := (CsrM.run (CsrM.withNodes true m c dbg n) ops).1
+    TableConsistent (CsrM.nodeIdentifiers s) (csrTable s) ∧ CsrView.callsOk s :=
+  csrTable_consistent_all_histories m c dbg n ops hfits h0
+
+/-- … and from `from_sorted_edges`. -/
+theorem C06_consistent_Csr_from_sorted (m c : Nat) (dbg : Bool) (es : List CsrM.Edge) (s0 : CsrM.State)
+    (ops : List CsrM.Op) (h : CsrM.fromSortedEdges m c dbg es = .ok s0) (h0 : CsrIxFits s0)
+    (hfits : C05T.Fits m s0.nodeCount ops) :
+    let s := (CsrM.run s0 ops).1
+    TableConsistent (CsrM.nodeIdentifiers s) (csrTable s) ∧ CsrView.callsOk s :=
+  csrTable_consistent_from_sorted m c dbg es s0 ops h h0 hfits
+
+/-- all histories, undirected `Csr`, behind `repairD7` (graphs of at most 100 nodes). -/
+theorem C06_consistent_Csr_undirected_all_histories (m c : Nat) (dbg : Bool) (n : Nat) (ops : List CsrM.Op)
+    (hfits : C05T.Fits m n ops) (h0 : m = 0 ∨ n ≤ m)
+    (h100 : (CsrM.run (CsrM.withNodes false m c dbg n) ops).1.nodeCount ≤ 100) :
+    let s := (CsrM.run (CsrM.withNodes false m c dbg n) ops).1
+    TableConsistent (CsrM.nodeIdentifiers s) (repairD7 (csrTable s)) ∧ CsrView.callsOk s :=
+  csrTable_consistent_all_histories_undirected m c dbg n ops hfits h0 h100
+
+/-- tie to the dumped witness: the table the MODEL computes for `Csr<Undirected>` with the single edge `0 – 1`
+is, field for field, the table dumped from the real crate (`w4`, finding D7). -/
+theorem C06_Csr_D7_model_is_dump :
+    csrTable (CsrM.run (CsrM.new false 4294967296 32 true) [.addNode 10, .addNode 11, .addEdge 0 1 3]).1 = w4 := by
+  decide
+
+/-! #### `adj::List` -/
+
+/-- well-formed `adj::List` state: node indices fit the index type and every stored successor is a node (what
+every history keeps whose `add_node_from_edges` calls name existing nodes: `add_node_from_edges` itself checks nothing) -/
+abbrev ListWF := Visit.ListWF
+/-- every row has at most 100 successors (the harness's edge-id code `from * 100 + successor_index`) -/
+abbrev ListBounded := Visit.ListBounded
+
+/-- `adj::List`: the table computed from the successor rows is consistent in every well-formed state (parallel
+edges and self-loops included). -/
+theorem C06_consistent_List (s : AdjM.State) (h : ListWF s) (hb : ListBounded s) :
+    TableConsistent (AdjM.nodeIndices s) (adjListTable s) :=
+  adjListTable_consistent s h hb
+
+/-- all histories from `List::new()` (hypotheses of `C05_list_all_histories`; the successors named by
+`add_node_from_edges` exist; at most 100 successor entries are ever added). -/
+theorem C06_consistent_List_all_histories (m : Nat) (ops : List AdjM.Op)
+    (hf : C05T.LFits m 0 ops) (ht : Visit.TargetsOk 0 ops) (hbud : Visit.budget ops ≤ 100) :
+    TableConsistent (AdjM.nodeIndices (AdjM.run (AdjM.new m) ops).1) (adjListTable (AdjM.run (AdjM.new m) ops).1) :=
+  adjListTable_consistent_all_histories' m ops hf ht hbud
+
+/-- the defaults of `adjListTable` for a panicking call are never used in a well-formed state. -/
+theorem C06_List_table_total (s : AdjM.State) (h : ListWF s) :
+    (∀ a ∈ AdjM.nodeIndices s, (AdjM.neighbors s a).isSome = true ∧ (AdjM.edgesOf s a).isSome = true) ∧
+    (ALView.adjacencyMatrix s).isSome = true :=
+  adjListTable_no_default s h
+
+/-! #### `MatrixGraph` -/
+
+/-- `MatrixGraph<_, _, _, Undirected, _, _>`: the table as it stands is consistent in every state satisfying the
+C04 invariant and refinement relation (live ids below 100: the pair code). -/
+theorem C06_consistent_MatrixGraph_undirected {s : Matrix.State} {g : MatrixSpec.G} (h : C04T.Inv s) (r : C04T.R s g)
+    (hb : ∀ a ∈ s.nodes.ids, a < 100) (hd : s.dir = false) :
+    TableConsistent s.nodes.ids (matrixTable s) :=
+  matrixTable_consistent_undirected h r hb hd
+
+/-- `MatrixGraph<_, _, _, Directed, _, _>` behind the repair of the open finding D6 (`edges_directed(b, Incoming)`
+yields `(b, a)` for an edge `a → b`): with the endpoints of the incoming references put right the table is consistent. -/
+theorem C06_consistent_MatrixGraph_directed_repairD6 {s : Matrix.State} {g : MatrixSpec.G} (h : C04T.Inv s)
+    (r : C04T.R s g) (hb : ∀ a ∈ s.nodes.ids, a < 100) (hd : s.dir = true) :
+    TableConsistent s.nodes.ids (repairD6 (matrixTable s)) :=
+  matrixTable_consistent_directed h r hb hd
+
+/-- … and the directed table AS IT STANDS satisfies every clause except the one D6 is about
+(`neighbors_directed(Incoming)` included). -/
+theorem C06_consistent_MatrixGraph_asIs_without_edgesIn {s : Matrix.State} {g : MatrixSpec.G} (h : C04T.Inv s)
+    (r : C04T.R s g) (hb : ∀ a ∈ s.nodes.ids, a < 100) :
+    TableConsistent s.nodes.ids { matrixTable s with edgesIn := none } :=
+  matrixTable_consistent_asIs h r hb
+
+/-- all histories from every constructor (the quantifier of `C04_all_histories`: edge-writing calls between
+existing nodes), live ids below 100. -/
+theorem C06_consistent_MatrixGraph_all_histories (dir nz : Bool) (ixMax k : Nat) (ops : List Matrix.Op) :
+    ∃ s0, Matrix.withCapacity dir nz ixMax k = .ok s0 ∧
+      (C04T.ValidHist s0 (MatrixSpec.G.empty dir) ops → (∀ a ∈ (Matrix.run s0 ops).1.nodes.ids, a < 100) →
+        (Matrix.run s0 ops).1.dir = dir ∧
+        TableConsistent (Matrix.run s0 ops).1.nodes.ids
+          (if dir then repairD6 (matrixTable (Matrix.run s0 ops).1) else matrixTable (Matrix.run s0 ops).1)) :=
+  matrixTable_all_histories dir nz ixMax k ops
+
+/-- D6 is in the model's table too: on the state reached by `add_node, add_node, add_edge 0 1` the unrepaired
+table violates exactly the `edges_directed(Incoming)` clause, the repaired one is consistent by the general theorem. -/
+theorem C06_MatrixGraph_D6_in_model :
+    ¬ edgesInOk d6State.nodes.ids (matrixTable d6State) ∧ TableConsistent d6State.nodes.ids (repairD6 (matrixTable d6State)) :=
+  ⟨matrixTable_D6_witness.1, matrixTable_D6_repaired⟩
+
+/-! #### `Graph` -/
+
+/-- `Graph<N, E, Ty, Ix>` (both edge types, any index width): the table computed from the node/edge arrays and the
+`next` chains is consistent in every state satisfying the C01 invariant — all thirteen clauses, multigraphs and
+self-loops included, no bound on the ids. -/
+theorem C06_consistent_Graph (s : G.State) (h : C01T.Inv s) :
+    TableConsistent (List.range s.nodes.length) (graphTable s) :=
+  graphTable_consistent s h
+
+/-- … hence after EVERY history of public calls (adds, removals, `update_edge`, `reverse`, `clear*`, `retain_*`, …). -/
+theorem C06_consistent_Graph_all_histories (endv : Nat) (directed : Bool) (ops : List G.Op) :
+    TableConsistent (List.range (G.run (G.empty endv directed) ops).1.nodes.length)
+      (graphTable (G.run (G.empty endv directed) ops).1) :=
+  graphTable_consistent_all_histories endv directed ops
+
+/-- the iterators behind the rows never fault there and `adjacency_matrix` stays inside its bitmap, so the
+empty-row default of `GView.okOr` is never used. -/
+theorem C06_Graph_table_total (s : G.State) (h : C01T.Inv s) (a : Nat) (k : Bool) :
+    (∃ l, G.neighborsDirected s a k = .ok l) ∧ (∃ l, G.edgesDirected s a k = .ok l) ∧
+      ∀ x ∈ GView.adjMatrix s, x < s.nodes.length * s.nodes.length :=
+  graphTable_no_fault s h a k
+
+/-- every adaptor stack over a reachable `Graph` is consistent (composition with `C06_stack`). -/
+theorem C06_Graph_stack (endv : Nat) (directed : Bool) (ops : List G.Op) (stack : List Op)
+    (hok : StackOk (graphTable (G.run (G.empty endv directed) ops).1).directed stack) (hfo : Op.frozenOwned ∉ stack) :
+    let s := (G.run (G.empty endv directed) ops).1
+    TableConsistent (List.range s.nodes.length) (applyStack Cfg.ideal stack (graphTable s)) ∧
+      abs (applyStack Cfg.ideal stack (graphTable s)) = specStack stack (abs (graphTable s)) :=
+  C06_stack _ stack _ hok hfo (C06_consistent_Graph_all_histories endv directed ops)
 
 /-! ### extracted from the source: the width of the adjacency bitmap (tools/extract_c06.py)
 
